@@ -151,6 +151,33 @@ theorem csv_key_with_stop_prefix_ends_metadata (sep : Char) (k v : Str) (h : ∃
 example : csvMetaLoopStops (encodeLine ',' "dataset".toList "3".toList) = true ∧ csvMetaLoopStops (encodeLine ',' "date".toList "3".toList) = false := by
   decide
 
+/-- the stop test of the generated prefixes is the stop test of the loop model `readMeta` -/
+theorem csvMetaLoopStops_eq_stopsAt (line : Str) : csvMetaLoopStops line = stopsAt (csvMetaStops.map String.toList) line := by
+  simp [csvMetaLoopStops, stopsAt, List.any_map, Function.comp_def]
+
+/-- the whole metadata block, with the GENERATED stop prefixes and headers: clean entries (no separator in key or value, no blank at
+the outer ends, key not a stop prefix) followed by either header the writer emits are read back as exactly these entries, and the
+header line is what the reader dispatches on — for every separator that is not a blank -/
+theorem csv_metadata_block_read_back (sep : Char) (hsep : isSpaceC sep = false) (entries : List (Str × Str)) (more : List Str)
+    (h : ∀ kv ∈ entries, CleanEntry sep (csvMetaStops.map String.toList) kv) :
+    ∀ hdr ∈ [csvDataHeader, csvModelHeader],
+      readMeta sep (csvMetaStops.map String.toList) (entries.map (fun kv => encodeLine sep kv.1 kv.2) ++ hdr.toList :: more) =
+        .read entries (hdr.toList :: more) := by
+  intro hdr hh
+  refine readMeta_written sep hsep _ entries _ h (Or.inr ⟨_, _, rfl, ?_⟩)
+  simp only [List.mem_cons, List.not_mem_nil, or_false] at hh
+  rcases hh with rfl | rfl <;> decide
+
+/-- ... and a metadata line whose value ends in the separator (`comment,see notes,`) makes the reader refuse the document -/
+theorem csv_metadata_block_refuses_trailing_separator (sep : Char) (hsep : isSpaceC sep = false) (entries : List (Str × Str))
+    (k v : Str) (more : List Str) (h : ∀ kv ∈ entries, CleanEntry sep (csvMetaStops.map String.toList) kv)
+    (hstop : csvMetaLoopStops (stripR (encodeLine sep k (v ++ [sep]))) = false) :
+    readMeta sep (csvMetaStops.map String.toList) (entries.map (fun kv => encodeLine sep kv.1 kv.2) ++ encodeLine sep k (v ++ [sep]) :: more) =
+      .refused :=
+  readMeta_refuses_separator sep hsep _ entries k _ more h (by rw [← csvMetaLoopStops_eq_stopsAt]; exact hstop) (Or.inr (by simp))
+
+example : csvMetaLoopStops (stripR (encodeLine ',' "comment".toList ("see notes".toList ++ [',']))) = false := by decide
+
 /-- the writer's own metadata keys of the version line do not stop the loop -/
 theorem csv_version_key_is_metadata : ∀ v ∈ [csvVersion, xlVersion], csvMetaLoopStops (encodeLine ',' v.writtenTag.toList v.written.toList) = false := by
   decide
@@ -313,6 +340,68 @@ theorem stripChar_quote_roundtrip (q : Char) (v : Str) (h1 : v.head? ≠ some q)
   rw [stripChar_quote]
   unfold stripChar
   rw [stripCharL_self q v h1, stripCharL_self q v.reverse (by rwa [List.head?_reverse]), List.reverse_reverse]
+
+private lemma stripCharL_length_le (q : Char) (s : Str) : (stripCharL q s).length ≤ s.length := by
+  induction s with
+  | nil => exact le_rfl
+  | cons c t ih =>
+    by_cases hc : c = q
+    · subst hc
+      have e : stripCharL c (c :: t) = stripCharL c t := by simp [stripCharL]
+      rw [e]
+      exact le_trans ih (Nat.le_succ _)
+    · have e : stripCharL q (c :: t) = c :: t := by simp [stripCharL, hc]
+      rw [e]
+
+private lemma stripCharL_eq_self_iff (q : Char) (s : Str) : stripCharL q s = s ↔ s.head? ≠ some q := by
+  refine ⟨fun h hq => ?_, stripCharL_self q s⟩
+  cases s with
+  | nil => simp at hq
+  | cons c t =>
+    simp only [List.head?_cons, Option.some.injEq] at hq
+    subst hq
+    have e : stripCharL c (c :: t) = stripCharL c t := by simp [stripCharL]
+    have h1 := stripCharL_length_le c t
+    rw [← e, h] at h1
+    simp at h1
+
+/-- `strip(q)` leaves a text alone iff the text neither begins nor ends with `q` -/
+theorem stripChar_eq_self_iff (q : Char) (v : Str) : stripChar q v = v ↔ v.head? ≠ some q ∧ v.getLast? ≠ some q := by
+  constructor
+  · intro h
+    have hlen : (stripChar q v).length ≤ (stripCharL q v).length := by
+      unfold stripChar
+      rw [List.length_reverse]
+      exact le_trans (stripCharL_length_le _ _) (by rw [List.length_reverse])
+    have hhead : v.head? ≠ some q := by
+      intro hq
+      cases v with
+      | nil => simp at hq
+      | cons c t =>
+        simp only [List.head?_cons, Option.some.injEq] at hq
+        subst hq
+        have e : stripCharL c (c :: t) = stripCharL c t := by simp [stripCharL]
+        have h1 := stripCharL_length_le c t
+        rw [h, e] at hlen
+        simp only [List.length_cons] at hlen
+        omega
+    refine ⟨hhead, ?_⟩
+    unfold stripChar at h
+    rw [stripCharL_self q v hhead] at h
+    have h' : stripCharL q v.reverse = v.reverse := by rw [← List.reverse_reverse (stripCharL q v.reverse), h]
+    rw [← List.head?_reverse]
+    exact (stripCharL_eq_self_iff q v.reverse).1 h'
+  · rintro ⟨h1, h2⟩
+    unfold stripChar
+    rw [stripCharL_self q v h1, stripCharL_self q v.reverse (by rwa [List.head?_reverse]), List.reverse_reverse]
+
+/-- the AIF value codec (`'<value>'` written, `.strip("'")` read) returns the value unchanged EXACTLY when the value neither begins nor
+ends with the quote character; every other value comes back shorter (candidate finding: `'ab` -> `ab`, never refused) -/
+theorem stripChar_quote_roundtrip_iff (q : Char) (v : Str) :
+    stripChar q (quote q v) = v ↔ v.head? ≠ some q ∧ v.getLast? ≠ some q := by
+  rw [stripChar_quote, stripChar_eq_self_iff]
+
+example : stripChar '\'' (quote '\'' "ab'".toList) = "ab".toList ∧ stripChar '\'' (quote '\'' "'".toList) = [] := by decide
 
 /-- the exact failure: quotes at the ends of the value itself are lost -/
 theorem stripChar_quote_loses_own_quotes : stripChar '\'' (quote '\'' "'q'".toList) = "q".toList := by decide
